@@ -1,4 +1,5 @@
 import SuccinctlyVerif.Model.JsonNav
+import SuccinctlyVerif.Model.JsonNavFull
 import Driver.Util
 namespace SV.Drv.C06
 open SV SV.Drv SV.JsonNav
@@ -92,7 +93,13 @@ def exec (a : List String) : String :=
     if json.length ≤ 1500 then
       let s := navDump avx2 false json
       let t := navDump avx2 true json
-      if s ≠ t then s!"MODEL-SPEC {s} fast={t}" else s ++ " TREE-OK"
+      -- the composed model (full BalancedParens / IB-select models of C04 / C07)
+      let c := match buildComposed avx2 false json with
+        | some x => dump x (json.length + 2) 0
+        | none => "PANIC"
+      if s ≠ t then s!"MODEL-SPEC {s} fast={t}"
+      else if s ≠ c then s!"MODEL-SPEC {s} composed={c}"
+      else s ++ " TREE-OK"
     else navDump avx2 (json.length > 3000) json ++ " TREE-OK"
   | ["dec", bs] => strRepr (decodeEscapes (parseBytes bs))
   | ["send", bs, st] =>
